@@ -109,6 +109,7 @@ func c07(r *Report) {
 	hac := p.Func(v2Pkg, "conversationManager", "hasActiveConversation")
 	r.Gate(Gate{ID: "C07.progress.expired-conversation-does-not-block", Fn: hac, Effect: ReturnsBool(0, true), Check: CallCheck(Fn("std:time", "Time", "After"), -1, IsTrue)})
 	c07GossipQueue(r)
+	c07Heartbeat(r)
 	c07RangeAgreement(r, hts)
 }
 
@@ -584,4 +585,85 @@ func pageOffset(v ssa.Value, ps int64) (int64, bool) {
 		}
 	}
 	return 0, false
+}
+
+// c07Heartbeat: the periodic gossip is what carries the XOR that triggers reconciliation after a lost message; it must
+// be sent on every tick, whatever the queue holds: every path through callSenders' locked section reaches the loop
+// over the senders, the ticker goroutine calls callSenders on every tick, and gossip is sent to whoever is connected.
+func c07Heartbeat(r *Report) {
+	p := r.P
+	rule := "ORDER: every path through callSenders reaches the loop that calls every sender (the heartbeat gossip is unconditional: it is what repairs a lost message)"
+	key := "C07.progress.gossip-heartbeat-unconditional"
+	cs := p.Func(v2Pkg+"/gossip", "", "callSenders")
+	if cs == nil {
+		r.Lost(key, rule, "callSenders not found")
+		return
+	}
+	n := 0
+	okAll := true
+	for _, f := range WithAnons(cs) {
+		calls := Calls(f, DynType("SenderFunc"))
+		if len(calls) == 0 {
+			continue
+		}
+		n += len(calls)
+		loops := Loops(f)
+		blocked := map[*ssa.BasicBlock]bool{}
+		for _, c := range calls {
+			l := InnermostLoop(loops, c.Block())
+			if l == nil {
+				r.Bad(key, rule, p.Pos(c.Pos()), "the sender is not called in a loop over all senders")
+				return
+			}
+			blocked[l.Header] = true
+		}
+		if !blocked[f.Blocks[0]] {
+			for b := range Reach(f.Blocks[0], EdgeSet{}, blocked) {
+				if _, isRet := b.Instrs[len(b.Instrs)-1].(*ssa.Return); isRet {
+					okAll = false
+					r.Bad(key, rule, p.Pos(blockPosOf(b)), "a return is reachable without reaching the loop over the senders (gossip skipped on some condition)")
+					return
+				}
+			}
+		}
+	}
+	r.Sites += n
+	if n == 0 {
+		r.Lost(key, rule, "no SenderFunc call in callSenders")
+		return
+	}
+	if okAll {
+		r.OK(key, rule, p.Pos(cs.Pos()), fmt.Sprintf("%d sender call site(s), loop reached on all paths", n), true)
+	}
+	// the ticker goroutine calls callSenders on the tick branch
+	pc := p.Func(v2Pkg+"/gossip", "manager", "PeerConnected")
+	rule2 := "ORDER: the per-peer ticker goroutine calls callSenders inside its select loop"
+	key2 := "C07.progress.gossip-ticker-calls-senders"
+	if pc == nil {
+		r.Lost(key2, rule2, "PeerConnected not found")
+		return
+	}
+	found := false
+	for _, f := range WithAnons(pc) {
+		for _, c := range Calls(f, Fn(v2Pkg+"/gossip", "", "callSenders")) {
+			if InnermostLoop(Loops(f), c.Block()) != nil {
+				found = true
+			}
+		}
+	}
+	r.Sites++
+	if !found {
+		r.Bad(key2, rule2, p.Pos(pc.Pos()), "callSenders is not called in the ticker loop")
+		return
+	}
+	r.OK(key2, rule2, p.Pos(pc.Pos()), "called in the select loop", false)
+}
+
+func blockPosOf(b *ssa.BasicBlock) token.Pos {
+	for _, in := range b.Instrs {
+		if in.Pos().IsValid() {
+			return in.Pos()
+		}
+	}
+	return token.NoPos
 }
